@@ -95,7 +95,9 @@ def guardOf (pkg recv m : String) : Option (Bool × List String) :=
   (guardFacts.find? fun g => g.pkg == pkg && g.recv == recv && g.method == m).map fun g => (g.guarded, g.sentinels)
 
 /-- which exported methods start with the error-latch test and which sentinels
-    they compare — the shape the lifecycle models assume. -/
+    they compare — the shape the lifecycle models assume. Since the repairs D12/D13 a completed
+    Close is recorded in the flag `done`; no method compares the error field with the closed
+    marker any more (an underlying reader or writer can return an equal error). -/
 theorem guards_expected :
     [ guardOf "xflate" "*Writer" "Write", guardOf "xflate" "*Writer" "Flush", guardOf "xflate" "*Writer" "Close",
       guardOf "xflate" "*Reader" "Read", guardOf "xflate" "*Reader" "Seek", guardOf "xflate" "*Reader" "Close",
@@ -103,12 +105,12 @@ theorem guards_expected :
       guardOf "meta" "*Reader" "Read", guardOf "meta" "*Reader" "Close",
       guardOf "bzip2" "*Writer" "Write", guardOf "bzip2" "*Writer" "Close", guardOf "bzip2" "*Reader" "Close",
       guardOf "flate" "*Reader" "Close", guardOf "brotli" "*Reader" "Close" ] =
-    [ some (true, []), some (true, []), some (true, ["==errClosed"]),
-      some (true, ["==io.EOF"]), some (true, ["!=io.EOF"]), some (true, ["!=io.EOF", "==errClosed"]),
-      some (true, []), some (true, ["==errClosed"]),
-      some (true, []), some (true, ["!=io.EOF", "==errClosed"]),
-      some (true, []), some (true, ["==errClosed"]), some (true, ["==errClosed", "==io.EOF"]),
-      some (false, ["==errClosed", "==io.EOF"]), some (true, ["==io.EOF", "==io.ErrClosedPipe"]) ] := by
+    [ some (true, []), some (true, []), some (true, ["done"]),
+      some (true, ["==io.EOF"]), some (true, ["!=io.EOF"]), some (true, ["!=io.EOF", "done"]),
+      some (true, []), some (true, ["done"]),
+      some (true, []), some (true, ["!=io.EOF", "done"]),
+      some (true, []), some (true, ["done"]), some (true, ["==io.EOF", "done"]),
+      some (false, ["==io.EOF", "done"]), some (true, ["==io.EOF", "done"]) ] := by
   decide
 
 /-! ### C19: package-level state -/
